@@ -71,6 +71,42 @@ def same(a, b):
     return a == b
 
 
+def scribble(x):
+    """mutate every mutable container reachable from x in place; returns how many were touched"""
+    n = 0
+    if isinstance(x, list):
+        for y in list(x):
+            n += scribble(y)
+        x.append('SCRIBBLE')
+        n += 1
+    elif isinstance(x, dict):
+        for y in list(x.values()):
+            n += scribble(y)
+        x['SCRIBBLE'] = 1
+        n += 1
+    elif isinstance(x, tuple):
+        for y in x:
+            n += scribble(y)
+    return n
+
+
+def shared_containers(a, b):
+    if isinstance(a, (list, dict)) and a is b:
+        return type(a).__name__
+    if isinstance(a, (list, tuple)) and isinstance(b, (list, tuple)):
+        for x, y in zip(a, b):
+            r = shared_containers(x, y)
+            if r:
+                return r
+    if isinstance(a, dict) and isinstance(b, dict):
+        for k in a:
+            if k in b:
+                r = shared_containers(a[k], b[k])
+                if r:
+                    return r
+    return None
+
+
 class C15(Harness):
     pid = 'C15'
     level = 'exploration'
@@ -89,7 +125,7 @@ class C15(Harness):
         for tname, (kw, vals) in type_table().items():
             for vi, v in enumerate(vals):
                 for level in ('instance', 'class'):
-                    for mode in ('all', 'subset', 'value', 'desersubset', 'emptysubset'):
+                    for mode in ('all', 'subset', 'value', 'desersubset', 'emptysubset', 'twice'):
                         out.append({'t': tname, 'vi': vi, 'level': level, 'mode': mode})
         names = list(type_table())
         pairs = list(itertools.permutations(names, 2))
@@ -155,6 +191,29 @@ class C15(Harness):
                     vs.append(V('subset-leaks', 'deserialize_parameters(..., subset=[]) produced %r' % (kw2,), **key))
             except Exception as e:
                 vs.append(V('roundtrip-raises', 'empty subset raised %r' % (e,), exc=type(e).__name__, **key))
+            return Result(vs, outcome=mode, hits={mode: 1})
+        if mode == 'twice':
+            # the same text restored twice, the first result mutated in between: restored values are independent of earlier restorations
+            try:
+                text = target.param.serialize_parameters()
+                k1 = X.param.deserialize_parameters(text)
+                y1 = X(**k1)
+                touched = scribble(k1['p']) + scribble(y1.p)
+                k2 = X.param.deserialize_parameters(text)
+                y2 = X(**k2)
+                if not same(y2.p, v):
+                    vs.append(V('roundtrip-differs', '%s: second restoration of the same text gives %r for %r after the first result was mutated in place' % (
+                        tname, y2.p, v), **key))
+                sh = shared_containers(k1['p'], k2['p'])
+                if sh:
+                    vs.append(V('restorations-share-state', '%s: two restorations of the same text share %s' % (tname, sh), **key))
+                v1 = X.param.deserialize_value('p', target.param.serialize_value('p'))
+                scribble(v1)
+                v2 = X.param.deserialize_value('p', target.param.serialize_value('p'))
+                if not same(v2, v):
+                    vs.append(V('roundtrip-differs', '%s: second deserialize_value gives %r for %r after the first result was mutated in place' % (tname, v2, v), **key))
+            except Exception as e:
+                vs.append(V('roundtrip-raises', '%s: restoring %r twice raised %r' % (tname, v, e), exc=type(e).__name__, **key))
             return Result(vs, outcome=mode, hits={mode: 1})
         if mode == 'desersubset':
             # the text holds every parameter, only one is selected when restoring
